@@ -520,7 +520,7 @@ pub fn t_impl(a: &[i64]) -> Val {
 }
 
 // t_impl6: `type T { a: u32 }` with one address-bound impl function of up to 6 parameters (C05: parameter order and types for longer lists).
-// a = [ps, address, recv, nargs, t0..t5 (arg_type codes), ret(0 none, k+1), name_kind]
+// a = [ps, address, recv, nargs, t0..t5 (arg_type codes), ret(0 none, k+1), name_kind, packed]
 //   name_kind: 0 parameters a0..a5; 1 the first is named `this`; 2 the first is named `f`; 3 the last is named `f`
 //   (`this` and `f` are identifiers the emitted wrapper uses itself)
 fn arg_name(kind: i64, j: usize, n: usize) -> &'static str {
@@ -549,12 +549,14 @@ pub fn t_impl6(a: &[i64]) -> Val {
     if a[10] != 0 {
         f = f.with_return_type(arg_type(a[10] - 1));
     }
-    let m = M::new()
-        .with_definitions([ID::new(
-            (V::Public, "T"),
-            TD::new([TS::field((V::Public, "a"), T::ident("u32"))]).with_attributes([A::align(4)]),
-        )])
-        .with_impls([FB::new("T", [f])]);
+    // a[12]: the owner type is #[packed] (a byte, then the u32)
+    let packed = a.len() > 12 && a[12] != 0;
+    let td = if packed {
+        TD::new([TS::field((V::Public, "b"), T::ident("u8")), TS::field((V::Public, "a"), T::ident("u32"))]).with_attributes([A::packed()])
+    } else {
+        TD::new([TS::field((V::Public, "a"), T::ident("u32"))]).with_attributes([A::align(4)])
+    };
+    let m = M::new().with_definitions([ID::new((V::Public, "T"), td)]).with_impls([FB::new("T", [f])]);
     build_one(ps, &m)
 }
 
@@ -604,7 +606,7 @@ pub fn t_privbase(a: &[i64]) -> Val {
 
 // t_vftargs: `type T { vftable { [#[index(idx)]] pub fn v(recv, 0..4 parameters) -> u32; }, x: *const u8 }` (C04: the wrapper passes the
 // receiver and then the declared arguments, whatever they are called).
-// a = [ps, recv (1 &self, 2 &mut self), nargs, t0..t3 (arg_type codes), name_kind (see t_impl6), has_index, index]
+// a = [ps, recv (1 &self, 2 &mut self), nargs, t0..t3 (arg_type codes), name_kind (see t_impl6), has_index, index, packed]
 pub fn t_vftargs(a: &[i64]) -> Val {
     let ps = a[0] as usize;
     let mut args: Vec<Ar> = vec![if a[1] == 2 { Ar::MutSelf } else { Ar::ConstSelf }];
@@ -618,10 +620,9 @@ pub fn t_vftargs(a: &[i64]) -> Val {
     if a[8] != 0 {
         f = f.with_attributes([A::integer_fn("index", a[9] as isize)]);
     }
-    let m = M::new().with_definitions([ID::new(
-        (V::Public, "T"),
-        TD::new([TS::vftable([f]), TS::field((V::Public, "x"), T::ident("u8").const_pointer())]),
-    )]);
+    let td = TD::new([TS::vftable([f]), TS::field((V::Public, "x"), T::ident("u8").const_pointer())]);
+    let td = if a.len() > 10 && a[10] != 0 { td.with_attributes([A::packed()]) } else { td };
+    let m = M::new().with_definitions([ID::new((V::Public, "T"), td)]);
     build_one(ps, &m)
 }
 
@@ -1124,7 +1125,7 @@ pub fn t_items(a: &[i64]) -> Val {
 
 // ------------------------------------------------------------------------------------------------
 // t_extern: singletons and extern values (C15).
-// a = [ps, t_singleton, t_addr, e_singleton, e_addr, nvals, per value (stride 4): has_addr, addr, type_kind, vis]
+// a = [ps, t_singleton (2: on a type without fields), t_addr, e_singleton, e_addr, nvals, per value (stride 4): has_addr, addr, type_kind, vis]
 //  type_kind: arg_type() codes, plus 7 => [u32; 4], 8 => *const E
 const EV_NAMES: [&str; 3] = ["g0", "g1", "g2"];
 pub fn t_extern(a: &[i64]) -> Val {
@@ -1159,7 +1160,9 @@ pub fn t_extern(a: &[i64]) -> Val {
         .with_definitions([
             ID::new(
                 (V::Public, "T"),
-                TD::new([TS::field((V::Public, "a"), T::ident("u8").const_pointer())]).with_attributes(t_attrs),
+                // a[1] == 2: the singleton type has no fields at all (size 0)
+                (if a[1] == 2 { TD::new(Vec::<TS>::new()) } else { TD::new([TS::field((V::Public, "a"), T::ident("u8").const_pointer())]) })
+                    .with_attributes(t_attrs),
             ),
             ID::new((V::Public, "E"), ED::new(T::ident("u32"), [ES::field("A")], e_attrs)),
         ])
